@@ -36,6 +36,8 @@ struct position_t
     position_t(): v(0) {}
     explicit position_t(int x): v(x) {}
 };
+class symbol_t;
+class expression_t;
 class type_t
 {
 public:
@@ -55,6 +57,17 @@ public:
     bool is_integer() const { return (id >> 1) == (int)Constants::INT; }
     bool is_scalar() const { return (id >> 1) == (int)Constants::SCALAR; }
     bool is_location() const { return (id >> 1) == (int)Constants::LOCATION; }
+    bool is_record() const { return (id >> 1) == (int)Constants::RECORD; }
+    bool is_process() const { return (id >> 1) == (int)Constants::PROCESS; }
+#endif
+#ifdef VERIF_TYPE_PROCESS
+    /* C07: the members of a process/record type, and types derived from a member type by rename / subst, live in ghost
+       tables of the TU; a derived type remembers what it was derived from and how */
+    struct verif_optidx { bool has; uint32_t v; bool operator!() const { return !has; } uint32_t operator*() const { return v; } };
+    verif_optidx find_index_of(int member_name) const;
+    type_t get_sub(uint32_t i) const;
+    type_t rename(int from_qualifier, int to_qualifier) const;
+    type_t subst(const symbol_t& s, const expression_t& e) const;
 #endif
     /* constructed types record the frame they are built over and its size AT CONSTRUCTION (= the arity of the type):
        10000 + 1024 * kind-code + 16 * frame + arity */
@@ -303,6 +316,8 @@ public:
     std::ostream& print__contract(std::ostream& os, bool old = false) const;
     std::ostream& print_bound_type(std::ostream& os, expression_t e) const;
     std::ostream& print_query_clauses(std::ostream& os, bool old) const;
+    std::ostream& print_constant_clause(std::ostream& os, bool old) const; /* C03 K3: the CONSTANT clause of print */
+    const char* get_string_value() const { return "<string>"; }
 #endif
     /* contracts of the recursive callees on a child (rule L12), defined in the TU */
     expression_t clone_deeper__contract() const;
